@@ -387,9 +387,11 @@ func (s *Store) deleteSessionTxn(tx WriteTxn, idx uint64, sessionID string, entM
 				return fmt.Errorf("failed kvs update: %s", err)
 			}
 
-			// Apply the lock delay if present.
+			// Apply the lock delay if present. The lock delay map is not part
+			// of the transaction, so only touch it once the transaction commits.
 			if delay > 0 {
-				s.lockDelay.SetExpiration(e.Key, now, delay, entMeta)
+				key := e.Key
+				tx.Defer(func() { s.lockDelay.SetExpiration(key, now, delay, entMeta) })
 			}
 		}
 	case structs.SessionKeysDelete:
@@ -399,9 +401,10 @@ func (s *Store) deleteSessionTxn(tx WriteTxn, idx uint64, sessionID string, entM
 				return fmt.Errorf("failed kvs delete: %s", err)
 			}
 
-			// Apply the lock delay if present.
+			// Apply the lock delay if present, once the transaction commits.
 			if delay > 0 {
-				s.lockDelay.SetExpiration(e.Key, now, delay, entMeta)
+				key := e.Key
+				tx.Defer(func() { s.lockDelay.SetExpiration(key, now, delay, entMeta) })
 			}
 		}
 	default:
